@@ -263,6 +263,82 @@ inline void async_programs(const vf::opts &o, vf::report &R, uint64_t programs) 
 }
 
 // ---------------------------------------------------------------------------------------------
+// Reference-typed results (async<T&>): the bound party must receive a reference to exactly the object named by co_return (identity,
+// not a copy that dies with the frame), in every start mode, for synchronous and suspended completion.
+struct c4ref_ctx {
+    int target = 7; tracked obj{99};
+    cocls::future<void> gate; std::optional<cocls::promise<void>> gp;
+    int body_runs = 0;
+    c4ref_ctx() { gp.emplace(gate.get_promise()); }
+    void open() { if (gp) { (*gp)(); gp.reset(); } }
+};
+inline cocls::async<int &> c4ref_body(c4ref_ctx &X, bool suspend) { X.body_runs++; if (suspend) { bool hv = co_await X.gate.has_value(); (void)hv; } co_return X.target; }
+inline cocls::async<const tracked &> c4cref_body(c4ref_ctx &X, bool suspend) { X.body_runs++; if (suspend) { bool hv = co_await X.gate.has_value(); (void)hv; } co_return X.obj; }
+inline cocls::async<int &> c4ref_outer(c4ref_ctx &X, bool suspend) { int &r = co_await c4ref_body(X, suspend); co_return r; }
+inline cocls::async<void> c4ref_driver(c4ref_ctx &X, bool suspend, const void *&seen, int &val) { int &r = co_await c4ref_body(X, suspend); seen = &r; val = r; }
+inline cocls::async<void> c4cref_driver(c4ref_ctx &X, bool suspend, const void *&seen, int &val) { const tracked &r = co_await c4cref_body(X, suspend); seen = &r; val = r.ok() ? (int)r.id : -1; }
+
+inline void async_reference_results(const vf::opts &o, vf::report &R, uint64_t programs) {
+    vf::rng master(vf::mix(o.seed, 0x404));
+    cocls::thread_pool pool(1);
+    static const char *mn[] = {"start()", "future<T&>(async)", "start(promise)", "co_await", "join()", "thread_pool::run", "co_await chain + start()"};
+    for (uint64_t pn = 0; pn < programs && R.nviol() < 5; pn++) {
+        vf::rng r(master.next());
+        bool is_const_obj = pn % 2 == 1; int mode = (int)((pn / 2) % 7); bool suspend = (pn / 14) % 2 == 1;
+        if (is_const_obj && mode == 6) mode = 0;
+        if (mode == 4) suspend = false; // join() blocks this thread: synchronous completion only
+        std::string desc = std::string(is_const_obj ? "async<const counted&> / " : "async<int&> / ") + mn[mode] + (suspend ? " / suspended, finished later" : " / immediate");
+        vf::set_crash_ctx(R.prop.c_str(), "async_reference_results", o.seed, pn, desc.c_str());
+        auto Xp = std::make_unique<c4ref_ctx>();
+        c4ref_ctx &X = *Xp;
+        const void *seen = nullptr; int val = -1; std::string err;
+        {
+            std::unique_ptr<cocls::future<int &>> fi; std::unique_ptr<cocls::future<const tracked &>> fc;
+            auto finish = [&] { if (suspend) X.open(); };
+            if (mode == 3) {
+                if (is_const_obj) c4cref_driver(X, suspend, seen, val).detach(); else c4ref_driver(X, suspend, seen, val).detach();
+                finish();
+            } else if (mode == 4) {
+                // join() returns by value (a copy of the referenced object): only the value can be compared
+                if (is_const_obj) { tracked v = c4cref_body(X, false).join(); seen = &X.obj; val = v.ok() ? (int)v.id : -1; }
+                else { int v = c4ref_body(X, false).join(); seen = &X.target; val = v; }
+            } else if (is_const_obj) {
+                if (mode == 0) fc.reset(new cocls::future<const tracked &>(c4cref_body(X, suspend).start()));
+                else if (mode == 1) fc.reset(new cocls::future<const tracked &>(c4cref_body(X, suspend)));
+                else if (mode == 2) { fc = std::make_unique<cocls::future<const tracked &>>(); if (!c4cref_body(X, suspend).start(fc->get_promise())) err = "start(promise) refused"; }
+                else fc.reset(new cocls::future<const tracked &>(pool.run(c4cref_body(X, suspend))));
+                if (mode == 5 && suspend) { unsigned sp = 0; while (X.body_runs == 0 && ++sp < 2000000) vf::cpu_relax(); }
+                finish();
+                fc->sync();
+                try { const tracked &v = fc->value(); seen = &v; val = v.ok() ? (int)v.id : -1; } catch (...) { err = "reference result: unexpected exception"; }
+            } else {
+                if (mode == 0) fi.reset(new cocls::future<int &>(c4ref_body(X, suspend).start()));
+                else if (mode == 1) fi.reset(new cocls::future<int &>(c4ref_body(X, suspend)));
+                else if (mode == 2) { fi = std::make_unique<cocls::future<int &>>(); if (!c4ref_body(X, suspend).start(fi->get_promise())) err = "start(promise) refused"; }
+                else if (mode == 5) fi.reset(new cocls::future<int &>(pool.run(c4ref_body(X, suspend))));
+                else fi.reset(new cocls::future<int &>(c4ref_outer(X, suspend).start()));
+                if (mode == 5 && suspend) { unsigned sp = 0; while (X.body_runs == 0 && ++sp < 2000000) vf::cpu_relax(); }
+                finish();
+                fi->sync();
+                try { int &v = fi->value(); seen = &v; val = v; } catch (...) { err = "reference result: unexpected exception"; }
+            }
+        }
+        R.cases++;
+        const void *want = is_const_obj ? (const void *)&X.obj : (const void *)&X.target;
+        int wantval = is_const_obj ? 99 : 7;
+        if (err.empty() && seen != want) err = "the bound party received a reference to another object than the one named by co_return (a copy that does not outlive the call)";
+        if (err.empty() && val != wantval) err = "referenced object holds " + std::to_string(val) + " instead of " + std::to_string(wantval);
+        if (err.empty() && X.body_runs != 1) err = "body ran " + std::to_string(X.body_runs) + " times";
+        if (!err.empty()) { R.violation("monitor:async|async_reference_results", err, vf::jobj().kv("program", (unsigned long long)pn).kv("desc", desc).str()); (void)Xp.release(); continue; }
+        R.nontrivial_cases++;
+        R.sig(desc);
+        R.cls("reference_results_with_identity_checked");
+        if (R.samples.size() < 2) R.sample(vf::jobj().kv("program", desc).kv("result", "address of the received reference == address of the object named by co_return").str());
+        (void)r;
+    }
+}
+
+// ---------------------------------------------------------------------------------------------
 // Bound parties and waiters that only the coroutine frame keeps alive. The library resolves the bound future (releasing blocked
 // threads and callback awaiters) BEFORE it destroys the finished frame; a program may therefore let the frame own the party:
 //   FO_CALLBACK      a heap job object embeds a call_fn_future_awaiter (future + completion callback); the frame holds the last
